@@ -85,13 +85,44 @@ def needs_quoting(s):
     return True
 
 
+RUST_WS = " \t\n\x0b\x0c\r\x85\xa0\u1680\u2000\u2001\u2002\u2003\u2004\u2005\u2006\u2007\u2008\u2009\u200a\u2028\u2029\u202f\u205f\u3000"
+
+
+def pg_cast_value(expr):
+    """parse_pg_type_cast (helpers.rs:203-245), the value part only (SQLite drops the cast): 'value'::type with '' skipped inside
+    the literal — a complete quoted literal that is not followed by ::type is NOT a cast, whatever it contains —, else
+    expr::type split at the first '::'. None = not a cast."""
+    t = expr.strip(RUST_WS)
+    if t.startswith("'"):
+        after = t[1:]
+        i = 0
+        while i < len(after):
+            if after[i] == "'":
+                if i + 1 < len(after) and after[i + 1] == "'":
+                    i += 2
+                    continue
+                rest = after[i + 1:]
+                if rest.startswith("::") and rest[2:].strip(RUST_WS) != "":
+                    return "'" + after[:i] + "'"
+                return None
+            i += 1
+        return None
+    pos = t.find("::")
+    if pos >= 0:
+        v, c = t[:pos].strip(RUST_WS), t[pos + 2:].strip(RUST_WS)
+        if v != "" and c != "":
+            return v
+    return None
+
+
 def convert_default_sqlite(s):
     low = s.lower()
     if low in ("gen_random_uuid()", "uuid()", "lower(hex(randomblob(16)))"):
         return "lower(hex(randomblob(16)))"
     if low in ("current_timestamp()", "now()", "current_timestamp", "getdate()"):
         return "CURRENT_TIMESTAMP"
-    return s
+    v = pg_cast_value(s)
+    return s if v is None else v
 
 
 def expected_default(col):
@@ -986,7 +1017,8 @@ def expected_backfill(col, fill_with):
         default_to_sql(col["default"]) if col.get("default") is not None else None)
     if src is None:
         return True, None
-    if not PLAIN_LITERAL.match(str(src)):
+    src = convert_default_sqlite(str(src))           # what convert_default_for_backend hands to SQLite (casts dropped)
+    if not PLAIN_LITERAL.match(src):
         return False, None
     ty = render_type(col["type"])
     if ty is None:
